@@ -15,6 +15,7 @@ import (
 
 	vc "github.com/gordian-engine/gordian/internal/verifcommon"
 	"github.com/gordian-engine/gordian/tm/tmconsensus"
+	"github.com/gordian-engine/gordian/tm/tmengine/tmelink"
 )
 
 func TestVerifC07Lists(t *testing.T) {
@@ -26,38 +27,78 @@ func TestVerifC07Lists(t *testing.T) {
 	out := vc.Open("VERIF_OUT")
 	defer out.Close()
 
-	for _, variant := range []string{"nvs-forged-first", "nvs-honest-first", "vs-forged-first"} {
+	type lcase struct{ hdr, variant string }
+	var cases []lcase
+	// A1 changes the validator set at the next height, B1 keeps it (next-set hashes equal the current set's hashes)
+	for _, hdr := range []string{"A1", "B1"} {
+		for _, v := range []string{"nvs-forged-first", "nvs-honest-first", "vs-forged-first", "replay-nvs-forged", "replay-vs-forged"} {
+			cases = append(cases, lcase{hdr, v})
+		}
+	}
+	for _, c := range cases {
+		variant := c.variant
 		stores := newRecStores(w.HashScheme)
 		r := newRig(w, stores)
 		must(r.start())
 		ctx, cancel := context.WithTimeout(r.ctx, 20*time.Second)
 
-		honest := w.ProposedHeader("A1", 0, 1, "ok", true)
-		forged := w.ProposedHeader("A1", 0, 1, "ok", true)
+		prop := 1
+		if c.hdr == "B1" {
+			prop = 2
+		}
+		honest := w.ProposedHeader(c.hdr, 0, prop, "ok", true)
+		forged := w.ProposedHeader(c.hdr, 0, prop, "ok", true)
 		other := w.Valsets["F"]
 		switch variant {
-		case "nvs-forged-first", "nvs-honest-first":
+		case "nvs-forged-first", "nvs-honest-first", "replay-nvs-forged":
 			forged.Header.NextValidatorSet.Validators = other.Validators
 			forged.Header.NextValidatorSet.PubKeys = other.PubKeys
-		case "vs-forged-first":
+		case "vs-forged-first", "replay-vs-forged":
 			forged.Header.ValidatorSet.Validators = other.Validators
 			forged.Header.ValidatorSet.PubKeys = other.PubKeys
 		}
-		order := []tmconsensus.ProposedHeader{forged, honest}
-		if variant == "nvs-honest-first" {
-			order = []tmconsensus.ProposedHeader{honest, forged}
-		}
 		var results []string
-		for _, ph := range order {
-			results = append(results, phResNames[r.m.HandleProposedHeader(ctx, ph)])
+		full := map[string][]vc.Entry{c.hdr: {{Pos: 1, Cls: "ok"}, {Pos: 2, Cls: "ok"}, {Pos: 3, Cls: "ok"}}}
+		if variant == "replay-nvs-forged" || variant == "replay-vs-forged" {
+			// the forged copy arrives as a replayed header with a genuine commit proof
+			proof := tmconsensus.CommitProof{Round: 0, PubKeyHash: w.PKH(w.Def.Genesis), Proofs: w.SparseProofs("precommit", 1, 0, w.Def.Genesis, full)}
+			resp := make(chan tmelink.ReplayedHeaderResponse, 1)
+			select {
+			case r.replayIn <- tmelink.ReplayedHeaderRequest{Header: forged.Header, Proof: proof, Resp: resp}:
+				select {
+				case rr := <-resp:
+					if rr.Err == nil {
+						results = append(results, "replay:nil")
+					} else {
+						results = append(results, "replay:"+rr.Err.Error())
+					}
+				case <-time.After(10 * time.Second):
+					results = append(results, "replay:no-response")
+				}
+			case <-time.After(10 * time.Second):
+				results = append(results, "replay:not-taken")
+			}
+		} else {
+			order := []tmconsensus.ProposedHeader{forged, honest}
+			if variant == "nvs-honest-first" {
+				order = []tmconsensus.ProposedHeader{honest, forged}
+			}
+			for _, ph := range order {
+				results = append(results, phResNames[r.m.HandleProposedHeader(ctx, ph)])
+			}
 		}
-		proofs := w.SparseProofs("precommit", 1, 0, w.Def.Genesis, map[string][]vc.Entry{"A1": {{Pos: 1, Cls: "ok"}, {Pos: 2, Cls: "ok"}, {Pos: 3, Cls: "ok"}}})
+		variant = c.hdr + ":" + variant
+		proofs := w.SparseProofs("precommit", 1, 0, w.Def.Genesis, full)
 		res := r.m.HandlePrecommitProofs(ctx, tmconsensus.PrecommitSparseProof{Height: 1, Round: 0, PubKeyHash: w.PKH(w.Def.Genesis), Proofs: proofs})
 		k, ok := r.sync()
 		rec := vc.M{"kind": "c07lists", "variant": variant, "ph_results": results, "precommit_result": voteResNames[res], "synced": ok}
 		if ok {
 			rec["votingH"] = k.V.Height
 			check := func(name string, vs tmconsensus.ValidatorSet) {
+				if len(vs.Validators) == 0 {
+					rec[name+"_n"] = 0
+					return
+				}
 				pkh, _ := w.HashScheme.PubKeys(tmconsensus.ValidatorsToPubKeys(vs.Validators))
 				vph, _ := w.HashScheme.VotePowers(tmconsensus.ValidatorsToVotePowers(vs.Validators))
 				rec[name+"_lists_match_hashes"] = len(vs.Validators) == 0 || (bytes.Equal(pkh, vs.PubKeyHash) && bytes.Equal(vph, vs.VotePowerHash))
